@@ -445,8 +445,9 @@ impl<B: ByteOrder> StringDecoder for Utf16Decoder<B> {
             .chunks_exact(2)
             // Find the position of the delimiter
             .position(|chunk| chunk == delimiter.as_ref())
-            // If the delimiter is not found, use the whole data, otherwise use the position of the delimiter
-            .map_or(data.len(), |pos| pos * 2);
+            // If the delimiter is not found, use the whole data (without a dangling odd byte), otherwise use
+            // the position of the delimiter
+            .map_or(data.len() - data.len() % 2, |pos| pos * 2);
 
         // Create a buffer of u16 values to hold the decoded characters
         let mut paired_buf: Vec<u16> = vec![0; position / 2];
@@ -458,8 +459,8 @@ impl<B: ByteOrder> StringDecoder for Utf16Decoder<B> {
         let result = String::from_utf16(&paired_buf).map_err(|e| PacketBad.context(e))?;
 
         // Update the cursor position
-        // The +2 accounts for the delimiter
-        *cursor += position + 2;
+        // The +2 accounts for the delimiter (if there was none, stop at the end of the data)
+        *cursor += (position + 2).min(data.len());
 
         Ok(result)
     }
